@@ -41,6 +41,72 @@ type ruModel struct {
 	// function whose body is being evaluated
 	res func(ast.Expr) ast.Expr
 	cur func() *kit.Func
+	// counting loops whose condition carries extra guards (`flag && i < len(xs)`)
+	guarded map[*kit.Func][]*ruGuarded
+}
+
+// ruGuarded is a counting loop over a slice whose condition is the
+// conjunction of the canonical bound test and further guards:
+// `for i := 0; ok && i < len(xs); i++`.  It leaves when a guard fails (like a
+// break at the top of the next iteration) or when the slice is exhausted.
+type ruGuarded struct {
+	fs     *ast.ForStmt
+	rs     *ast.RangeStmt // synthetic: Key i, X xs, Body
+	bound  ast.Expr       // the `i < len(xs)` leaf
+	guards []ast.Expr
+}
+
+func (m *ruModel) guardedLoops(f *kit.Func) []*ruGuarded {
+	if m.guarded == nil {
+		m.guarded = map[*kit.Func][]*ruGuarded{}
+	}
+	if g, ok := m.guarded[f]; ok {
+		return g
+	}
+	var out []*ruGuarded
+	ast.Inspect(f.Body, func(n ast.Node) bool {
+		fs, ok := n.(*ast.ForStmt)
+		if !ok || fs.Cond == nil || f.CanonLoop(fs) != nil {
+			return true
+		}
+		var leaves []ast.Expr
+		var flat func(e ast.Expr) bool
+		flat = func(e ast.Expr) bool {
+			e = ast.Unparen(e)
+			if b, isB := e.(*ast.BinaryExpr); isB && b.Op == token.LAND {
+				return flat(b.X) && flat(b.Y)
+			}
+			leaves = append(leaves, e)
+			return true
+		}
+		flat(fs.Cond)
+		if len(leaves) < 2 {
+			return true
+		}
+		var g *ruGuarded
+		for _, l := range leaves {
+			tmp := *fs
+			tmp.Cond = l
+			if rs := f.CanonLoop(&tmp); rs != nil {
+				if g != nil {
+					return true // two bound tests: not this shape
+				}
+				g = &ruGuarded{fs: fs, rs: rs, bound: l}
+			}
+		}
+		if g == nil {
+			return true
+		}
+		for _, l := range leaves {
+			if l != g.bound {
+				g.guards = append(g.guards, l)
+			}
+		}
+		out = append(out, g)
+		return true
+	})
+	m.guarded[f] = out
+	return out
 }
 
 // follow installs the inline-evaluation view of st for the duration of a run;
@@ -286,6 +352,16 @@ func (m *ruModel) rangesOf(f *kit.Func) *ruRanges {
 			}
 		}
 	}
+	for _, g := range m.guardedLoops(f) {
+		if o := kit.ObjOf(info, g.rs.Key); o != nil {
+			r.key[o] = g.rs
+		}
+		for o := range kit.ElemAliases(info, g.rs) {
+			if _, has := r.val[o]; !has {
+				r.val[o] = g.rs
+			}
+		}
+	}
 	m.ranges[f] = r
 	return r
 }
@@ -334,6 +410,9 @@ func (m *ruModel) isElemOf(f *kit.Func, e ast.Expr, elem types.Type) bool {
 				}
 				return types.Identical(t, elem)
 			}
+		}
+		if rv := c14RecvVar(f); rv != nil && types.Object(rv) == o {
+			return types.Identical(ruDeref(rv.Type()), elem)
 		}
 		// a local copy all of whose bindings are `X[k]`, k the key of a range over X
 		if rs := m.copyRange(f, o, elem); rs != nil {
@@ -390,7 +469,7 @@ func (m *ruModel) elemRange(f *kit.Func, e ast.Expr) *ast.RangeStmt {
 				return rs
 			}
 			if el := o.Type(); el != nil {
-				return m.copyRange(f, o, el)
+				return m.copyRange(f, o, ruDeref(el))
 			}
 		}
 	case *ast.IndexExpr:
@@ -600,16 +679,24 @@ func (rc *ruCorr) String() string {
 // `X[k]` with k the key variable of one range statement over X; that range
 // statement is returned (nil otherwise).
 func (m *ruModel) copyRange(f *kit.Func, o types.Object, elem types.Type) *ast.RangeStmt {
-	if o == nil || !types.Identical(o.Type(), elem) {
+	if o == nil || !types.Identical(ruDeref(o.Type()), elem) {
 		return nil
 	}
+	_, isPtr := o.Type().(*types.Pointer)
 	info := f.Info()
 	rg := m.rangesOf(f)
 	var found *ast.RangeStmt
 	ok, n := true, 0
 	check := func(rhs ast.Expr) {
 		n++
-		ix, isIx := ast.Unparen(rhs).(*ast.IndexExpr)
+		rhs = ast.Unparen(rhs)
+		if u, isU := rhs.(*ast.UnaryExpr); isU && u.Op == token.AND && isPtr {
+			rhs = ast.Unparen(u.X) // p := &X[k]
+		} else if isPtr {
+			ok = false
+			return
+		}
+		ix, isIx := rhs.(*ast.IndexExpr)
 		if !isIx {
 			ok = false
 			return
@@ -674,6 +761,17 @@ func ruOwnLoops(f *kit.Func) []*ast.RangeStmt {
 		}
 		if !inLit {
 			out = append(out, rs)
+		}
+	}
+	return out
+}
+
+// condStoresIn: stores into a condition's state inside node n of f.
+func (m *ruModel) condStoresIn(f *kit.Func, n ast.Node) []*ast.AssignStmt {
+	var out []*ast.AssignStmt
+	for _, st := range m.condStores(f) {
+		if n.Pos() <= st.Pos() && st.End() <= n.End() {
+			out = append(out, st)
 		}
 	}
 	return out
